@@ -307,7 +307,11 @@ func (g *Gen) Actions(fail func(t *rapid.T, err error)) map[string]func(*rapid.T
 			// initial attributes: a size within and beyond the announced maximum
 			max := x.M.Lim.MaxFileSize
 			size := pick(t, []uint64{0, 1, 5000, 9 * BlockSize, max, max + 1, 1 << 40, 1 << 63, ^uint64(0)}, "initsize")
-			return x.CreateWithSize(d, g.NewName(t, d.N), size, rapid.Bool().Draw(t, "guarded"))
+			name := g.NewName(t, d.N)
+			if pct(t, 35, "existing?") {
+				name = g.OldName(t, d.N) // on an existing name: refused, or (UNCHECKED, regular file) the file itself comes back
+			}
+			return x.CreateWithSize(d, name, size, rapid.Bool().Draw(t, "guarded"))
 		}
 		return x.Create(d, g.NewName(t, d.N))
 	})
@@ -455,6 +459,16 @@ func (g *Gen) Actions(fail func(t *rapid.T, err error)) map[string]func(*rapid.T
 			tn := g.NewName(t, td)
 			if pct(t, 30, "overwrite?") {
 				tn = g.OldName(t, td)
+				// preferably over an empty directory (the only kind of target a directory may replace)
+				var empties []string
+				for _, name := range sortedNames(td.Children) {
+					if c := td.Children[name]; c.IsDir() && len(c.Children) == 0 && c != src {
+						empties = append(empties, name)
+					}
+				}
+				if len(empties) > 0 && pct(t, 70, "overemptydir?") {
+					tn = pick(t, empties, "emptydir")
+				}
 			}
 			return x.Rename(LiveRef(src.Parent), src.Name, LiveRef(td), tn)
 		}),
